@@ -108,6 +108,10 @@ Definition add_node (lg : clegs) (c : cproc) : cproc * nat :=
 Definition push_path (s : step) (c : cproc) : cproc :=
   mkCP (cp_nodes c) (cp_edges c) (cp_app c) (cp_sizes c) (cp_ssa c) (cp_path c ++ [s]) (cp_ok c).
 
+(* a KeyError would have been raised here *)
+Definition set_bad (c : cproc) : cproc :=
+  mkCP (cp_nodes c) (cp_edges c) (cp_app c) (cp_sizes c) (cp_ssa c) (cp_path c) false.
+
 (* compute_contracted: sorted simultaneous iteration *)
 Fixpoint compute_contracted (app : nat -> nat) (il : clegs) : clegs -> clegs :=
   fix go (jl : clegs) : clegs :=
@@ -132,17 +136,18 @@ Definition contract_nodes (i j : nat) (new_legs : option clegs) (c : cproc) : cp
   let '(c3, k) := add_node nl c2 in
   (push_path [i; j] c3, k).
 
-(* remove_ix *)
+(* remove_ix: for node in self.edges.pop(ix): self.nodes[node] = ...   (KeyError if node is gone) *)
 Definition remove_ix (ix : nat) (c : cproc) : cproc :=
   match nget ix (cp_edges c) with
-  | None => c
+  | None => set_bad c                               (* self.edges.pop(ix) *)
   | Some ns =>
       mkCP (fold_left (fun nd node =>
                          match nget node nd with
                          | Some lg => nset_ node (filter (fun kv => negb (Nat.eqb (fst kv) ix)) lg) nd
                          | None => nd
                          end) ns (cp_nodes c))
-           (ndel ix (cp_edges c)) (cp_app c) (cp_sizes c) (cp_ssa c) (cp_path c) (cp_ok c)
+           (ndel ix (cp_edges c)) (cp_app c) (cp_sizes c) (cp_ssa c) (cp_path c)
+           (cp_ok c && forallb (fun node => match nget node (cp_nodes c) with Some _ => true | None => false end) ns)
   end.
 Definition simplify_batch (c : cproc) : cproc :=
   let rm := map fst (filter (fun e => Nat.leb (length (cp_nodes c)) (length (snd e))) (cp_edges c)) in
@@ -293,15 +298,20 @@ Record gstate := mkGS {
 
 Definition node_size_of (sz : list (nat * Z)) (i : nat) : Z := match nget i sz with Some v => v | None => 1%Z end.
 
-Definition g_push (i j : nat) (st : gstate) : gstate :=
+(* [sco]: the score of the candidate with heap counter c.  None = costmod 1, temperature 0
+   (size_ab - size_a - size_b); Some f = ANY scores (temperature > 0: gumbel noise, any costmod).
+   self.nodes[i], self.nodes[j], node_sizes[i], node_sizes[j] raise KeyError when missing *)
+Definition g_push (sco : option (nat -> Z)) (i j : nat) (st : gstate) : gstate :=
   let c := gs_c st in
-  let il := match nget i (cp_nodes c) with Some l => l | None => [] end in
-  let jl := match nget j (cp_nodes c) with Some l => l | None => [] end in
-  let klegs := compute_contracted (app_of c) il jl in
-  let ksize := compute_size c klegs in
-  let score := (ksize - (node_size_of (gs_sizes st) i + node_size_of (gs_sizes st) j))%Z in
-  mkGS c (gs_sizes st) (gs_queue st ++ [(score, gs_cnt st)])
-       (gs_cands st ++ [(gs_cnt st, mkG i j ksize klegs)]) (S (gs_cnt st)).
+  match nget i (cp_nodes c), nget j (cp_nodes c), nget i (gs_sizes st), nget j (gs_sizes st) with
+  | Some il, Some jl, Some si, Some sj =>
+      let klegs := compute_contracted (app_of c) il jl in
+      let ksize := compute_size c klegs in
+      let score := match sco with Some f => f (gs_cnt st) | None => (ksize - (si + sj))%Z end in
+      mkGS c (gs_sizes st) (gs_queue st ++ [(score, gs_cnt st)])
+           (gs_cands st ++ [(gs_cnt st, mkG i j ksize klegs)]) (S (gs_cnt st))
+  | _, _, _, _ => mkGS (set_bad c) (gs_sizes st) (gs_queue st) (gs_cands st) (gs_cnt st)
+  end.
 
 Fixpoint combinations2 (l : list nat) : list (nat * nat) :=
   match l with
@@ -319,7 +329,7 @@ Definition neighbors (c : cproc) (i : nat) : list nat :=
                                    end) lg
   end.
 
-Fixpoint greedy_loop (fuel : nat) (st : gstate) : gstate :=
+Fixpoint greedy_loop (sco : option (nat -> Z)) (fuel : nat) (st : gstate) : gstate :=
   match fuel with
   | 0 => st
   | S f =>
@@ -337,19 +347,54 @@ Fixpoint greedy_loop (fuel : nat) (st : gstate) : gstate :=
               | Some _, Some _ =>
                   let '(c', k) := contract_nodes (g_i g) (g_j g) (Some (g_klegs g)) c in
                   let st1 := mkGS c' (gs_sizes st ++ [(k, g_ksize g)]) q1 cands1 (gs_cnt st) in
-                  greedy_loop f (fold_left (fun s l => g_push k l s) (neighbors c' k) st1)
-              | _, _ => greedy_loop f (mkGS c (gs_sizes st) q1 cands1 (gs_cnt st))
+                  greedy_loop sco f (fold_left (fun s l => g_push sco k l s) (neighbors c' k) st1)
+              | _, _ => greedy_loop sco f (mkGS c (gs_sizes st) q1 cands1 (gs_cnt st))
               end
           end
       end
   end.
-Definition cp_greedy (c : cproc) : cproc :=
+Definition cp_greedy_sc (sco : option (nat -> Z)) (c : cproc) : cproc :=
   let sizes := map (fun il => (fst il, compute_size c (snd il))) (cp_nodes c) in
   let st0 := mkGS c sizes [] [] 0 in
   let pairs := flat_map (fun e => combinations2 (snd e)) (cp_edges c) in
-  let st1 := fold_left (fun s p => g_push (fst p) (snd p) s) pairs st0 in
+  let st1 := fold_left (fun s p => g_push sco (fst p) (snd p) s) pairs st0 in
   let n := length (cp_nodes c) in
-  gs_c (greedy_loop (2000 + 200 * n * n) st1).
+  gs_c (greedy_loop sco (2000 + 200 * n * n) st1).
+Definition cp_greedy (c : cproc) : cproc := cp_greedy_sc None c.
 
 (* the abstract view of a concrete processor *)
 Definition abs_of (c : cproc) : amach := mkA (map fst (cp_nodes c)) (cp_ssa c) (cp_path c).
+
+(* ------------------------------------------------------------------ *)
+(* ContractionProcessor.__init__ for inputs whose index labels are already numbered by first
+   appearance (that numbering is self.indmap; the harness applies it) *)
+Fixpoint ins_leg (x : nat * nat) (l : clegs) : clegs :=
+  match l with
+  | [] => [x]
+  | y :: l' => if Nat.leb (fst x) (fst y) then x :: l else y :: ins_leg x l'
+  end.
+Definition sort_legs (t : list nat) : clegs := fold_right ins_leg [] (map (fun ix => (ix, 1)) t).   (* legs.sort() *)
+Definition count_ix (ix : nat) (l : list nat) : nat := length (filter (Nat.eqb ix) l).
+Definition cp_init (inputs : list (list nat)) (output : list nat) (sizes : list Z) : cproc :=
+  let n := length inputs in
+  let ixs := unique (concat inputs) in
+  mkCP (enumerate_from 0 (map sort_legs inputs))
+       (map (fun ix => (ix, filter (fun i => memb ix (nth i inputs [])) (seq 0 n))) ixs)
+       (map (fun ix => count_ix ix (concat inputs ++ output)) (seq 0 (length ixs)))
+       sizes n [] true.
+
+(* ------------------------------------------------------------------ *)
+(* optimize_optimal: for where in self.subgraphs(): optimize_optimal_connected(where); the
+   dynamic program is an ORACLE here (proved in Proofs/OptimalFacts.v, property C09): it returns
+   a tree over the positions of [where]; lines 742-747 replay its bit path, i.e. contract the
+   tree in post-order through termmap *)
+Fixpoint cp_apply_tree (wh : list nat) (t : tree) (c : cproc) : cproc * nat :=
+  match t with
+  | Leaf p => (c, nth p wh 0)                       (* termmap[1 << p] = where[p] *)
+  | Node l r =>
+      let '(c1, i) := cp_apply_tree wh l c in
+      let '(c2, j) := cp_apply_tree wh r c1 in
+      contract_nodes i j None c2                    (* termmap[si | sj] = k *)
+  end.
+Definition cp_optimal (comps : list (list nat * tree)) (c : cproc) : cproc :=
+  fold_left (fun c' wt => fst (cp_apply_tree (fst wt) (snd wt) c')) comps c.
